@@ -7,6 +7,7 @@ content - hunks of P for that file; there is one reject file per file however ma
 for it; a file of P all of whose hunks applied has no reject; re-running with more threads gives the
 same reject files."""
 import collections
+import os
 import re
 
 from props import common, l3common, l3gen, ws
@@ -29,8 +30,9 @@ def parse_dump(out):
         # depends on how the writer interleaves - and + lines and is not part of the hunk's meaning (same_hunk
         # in WriterProofs.v)
         hunks = [(h.group(1), h.group(2), h.group(5), h.group(6), h.group(7)) for h in HK.finditer(m.group(10))]
-        res.append((None if m.group(2) == "/" else bytes.fromhex(m.group(2)),
-                    None if m.group(3) == "/" else bytes.fromhex(m.group(3)), hunks))
+        # names are compared as paths ("dir/./h.txt" and "dir/h.txt" are one file, and the reject is named after the path)
+        norm = lambda hx: None if hx == "/" else os.path.normpath(bytes.fromhex(hx))
+        res.append((norm(m.group(2)), norm(m.group(3)), hunks))
     return res
 
 
@@ -82,7 +84,7 @@ def statement_problems(ctx, w, cfg, real):
     if fps is None:
         return ["the failing patch %r does not parse (%s) but reject files exist" % (P, out[:40])]
     for path, data in rej.items():
-        target = path[:-4]
+        target = os.path.normpath(path[:-4])
         mine = [hk for (o, n, hks) in fps if target in (o, n) for hk in hks]
         if not any(target in (o, n) for (o, n, _) in fps):
             probs.append("%r: patch %r has no file patch for %r" % (path, P, target))
@@ -101,6 +103,14 @@ def statement_problems(ctx, w, cfg, real):
         if not is_subsequence(got, mine):
             probs.append("%r: its hunks are not hunks of %r for that file, in order" % (path, P))
     return probs
+
+
+def all_parse(ctx, w):
+    """the parallel driver reads every patch of the range before it applies any and refuses the whole push when one
+    does not parse (C17); the sequential one only gets that far if nothing failed before - C06 exempts such series and
+    so does the comparison of thread counts here"""
+    from props.C06 import file_patches
+    return file_patches(ctx, w) is not None
 
 
 def run(ctx):
@@ -135,7 +145,7 @@ def run(ctx):
         hist["rejects=%d" % min(nrej, 4)] += 1
         probs = statement_problems(ctx, w, cfg, r)
         # the same push with another thread count: same reject files
-        if nrej and cfg["threads"] == 1 and rng.random() < 0.5:
+        if nrej and cfg["threads"] == 1 and rng.random() < 0.5 and all_parse(ctx, w):
             c2 = dict(cfg)
             c2["threads"] = rng.choice([2, 4, 8])
             r2, _, _ = l3gen.run_real(ctx.binary, w, c2)
